@@ -29,6 +29,11 @@
      subkeypre <parent> <desc>        -> what Subkey feeds to the hash (prefix ++ parent ++ desc)
      hashobj <chunk>*                 -> the state of a Hash after these Writes (= everything written)
      fh reset | fh set <name> <sum> | fh get <name> <content|none>   -> FileHash's memo table: ok | ok | ERR | <sum>
+     srcparse <entry> <id>            -> the translated segments of get (Gen/CacheSrc.v: src_Cache_get_parse with bound 21 on
+                                         entry ++ [0], then src_Cache_get_result): NF | F out size unixnano | PANIC | OUTOFFUEL,
+                                         NA when the entry is not entrySize bytes long (the length test precedes the segment)
+     srcentry <id> <out> <size> <tm>  -> the translated fmt.Sprintf of putIndexEntry at the clock value tm (decimal ns)
+     srcname <dir> <id> <key>         -> the translated fileName
    A hash that the table does not contain is answered by  NEED <content>  (nothing changes). *)
 exception Need of string
 
@@ -112,10 +117,46 @@ let faulty_put k kind j id p small =
         | Done (PutOk (out, size)) -> Printf.sprintf "DONE PUTOK %s %d" (hex_of_bytes out) (int_of_nat size) in
       res ^ " | " ^ String.concat " " (List.map show_op tr) ^ " | holds=" ^ string_of_bool holds ^ fds
 
+(* results of the calls of the interleaved / re-entrant semantics *)
+let show_cres = function
+  | XPut PutErrEarly -> "PUTERR"
+  | XPut (PutFailed (_, _)) -> "PUTFAILED"
+  | XPut (PutOk (out, size)) -> Printf.sprintf "PUTOK %s %d" (hex_of_bytes out) (int_of_nat size)
+  | XGet e -> show_entry e
+  | XBytes NotFound -> "NF"
+  | XBytes (Found (d, out, size, tm)) -> Printf.sprintf "F %s %s %s %s" (show_bytes d) (hex_of_bytes out) (show_z size) (show_z tm)
+  | XFile NotFound -> "NF"
+  | XFile (Found (p, out, size, tm)) -> Printf.sprintf "F %s %s %s %s" (string_of_bytes (path_name p)) (hex_of_bytes out) (show_z size) (show_z tm)
+let show_put = function
+  | PutErrEarly -> "PUTERR"
+  | PutFailed (out, size) -> ignore (path_of "d" (hex_of_bytes out)); Printf.sprintf "PUTFAILED %s %d" (hex_of_bytes out) (int_of_nat size)
+  | PutOk (out, size) -> ignore (path_of "d" (hex_of_bytes out)); Printf.sprintf "PUTOK %s %d" (hex_of_bytes out) (int_of_nat size)
+
 (* cache/hash.go: the memo table of FileHash *)
 let fh : (byte list * byte list) list ref = ref []
 
 let handle = function
+  (* putcb <id> <tm> <pass> <n> get|getbytes|getfile <id2> <chunk>*  -> <put result> ;; <lookup result>|NOCB
+     a Put (well-behaved source) whose source looks id2 up: pass 0 = never, 1 = before the first file
+     operation, 2 = before the n-th write to the output file (put_cb of Cache/CacheReent.v) *)
+  | "putcb" :: id :: tm :: pass :: n :: lop :: id2 :: chunks ->
+      let cs = List.map arg chunks in
+      let i2 = bytes_of_hex id2 in
+      let c = (match lop with "get" -> CGet i2 | "getbytes" -> CGetBytes i2 | "getfile" -> CGetFile i2 | _ -> failwith "bad lookup") in
+      let w = (match pass with "0" -> CbNever | "1" -> CbBefore | _ -> CbWrite (nat_of_int (int_of_string n))) in
+      ignore (path_of "a" id);
+      let ((fs', r), b) = put_cb h (bytes_of_hex id) cs (z_of_int (int_of_string tm)) c w !store in
+      store := fs';
+      show_put r ^ " ;; " ^ (match b with None -> "NOCB" | Some x -> show_cres x)
+  (* putsrc <id> <tm> <pos> <chunk>*  -> as put: the source is an in-memory reader at offset pos
+     when Put gets it (reader_of_memsrc of Cache/CacheReent.v) *)
+  | "putsrc" :: id :: tm :: pos :: chunks ->
+      let cs = List.map arg chunks in
+      let s = { ms_data = List.concat cs; ms_pos = nat_of_int (int_of_string pos) } in
+      ignore (path_of "a" id);
+      let (fs', r) = put h !store (bytes_of_hex id) (reader_of_memsrc s (fun _ -> cs)) (z_of_int (int_of_string tm)) in
+      store := fs';
+      show_put r
   | ["subkeypre"; parent; desc] -> hex_of_bytes (subkey_preimage (bytes_of_hex parent) (bytes_of_hex desc))
   | "hashobj" :: chunks -> hex_of_bytes (List.fold_left hash_write new_hash (List.map arg chunks))
   | ["fh"; "reset"] -> fh := []; "ok"
@@ -274,5 +315,40 @@ let handle = function
       hex_of_bytes (encode_entry (bytes_of_hex id) (bytes_of_hex out) (z_of_int (int_of_string size)) (z_of_int (int_of_string tm)))
   | _ -> "BAD-REQUEST"
 
-let () = serve (fun req -> try handle req with Need c -> "NEED " ^ c)
+(* ---- the translated segments (Gen/CacheSrc.v) *)
+let z_of_decimal (s : string) : z =
+  let neg = String.length s > 0 && s.[0] = '-' in
+  let ten = z_of_int 10 in
+  let acc = ref Z0 in
+  String.iteri (fun i c ->
+    if i = 0 && (c = '-' || c = '+') then ()
+    else if c >= '0' && c <= '9' then acc := Z.add (Z.mul !acc ten) (z_of_int (Char.code c - 48))
+    else failwith "bad number") s;
+  if neg then Z.opp !acc else !acc
+
+let src_handle = function
+  | ["srcparse"; e; id] ->
+      let e = bytes_of_hex e in
+      if List.length e <> int_of_nat entry_size_n then "NA" else
+      (match src_Cache_get_parse (nat_of_int 21) (bytes_of_hex id) false (e @ [byte_of_int 0]) with
+       | Ok (Normal ((((_, _), out), size), tm)) ->
+           (match src_Cache_get_result out size tm with
+            | Ok (Return (ent, false)) ->
+                Printf.sprintf "F %s %s %s" (hex_of_bytes ent.ent_out) (show_z ent.ent_size) (show_z (go_time_UnixNano ent.ent_time))
+            | Ok _ -> "BAD-RESULT" | Panic -> "PANIC" | OutOfFuel -> "OUTOFFUEL")
+       | Ok (Return (_, true)) -> "NF"
+       | Ok _ -> "BAD-OUTCOME"
+       | Panic -> "PANIC"
+       | OutOfFuel -> "OUTOFFUEL")
+  | ["srcentry"; id; out; size; tm] ->
+      (match src_Cache_putIndexEntry_entry (bytes_of_hex id) (bytes_of_hex out) (z_of_decimal size) (time_of_ns (z_of_decimal tm)) with
+       | Ok (Normal e) -> hex_of_bytes e
+       | Ok _ -> "BAD-OUTCOME" | Panic -> "PANIC" | OutOfFuel -> "OUTOFFUEL")
+  | ["srcname"; dir; id; key] ->
+      (match src_Cache_fileName_body { cache_dir = bytes_of_hex dir; cache_now = () } (bytes_of_hex id) (bytes_of_hex key) with
+       | Ok (Return n) -> hex_of_bytes n
+       | Ok _ -> "BAD-OUTCOME" | Panic -> "PANIC" | OutOfFuel -> "OUTOFFUEL")
+  | req -> handle req
+
+let () = serve (fun req -> try src_handle req with Need c -> "NEED " ^ c)
 (* note: NEED carries the whole content in hex *)
